@@ -8,7 +8,8 @@
    iter_index t it = number of items before position it (= distance from begin).
    All statements hold for every 1 <= maxCapacity <= 255, every capacityStep, blockCount, search strategy. *)
 From Coq Require Import ZArith List.
-From C02 Require Import BTreeModel BTreeParams BTreeBase SplitSeg IndexTable BTreeSearch BTreeIter BTreeAdd BTreeRemove BTreeCtx BTreeRemove2 BTreeTrack BTreeRemove3 BTreeRange BTreeTop BTreeHist BTreeRemoveTop BTreeRangeTop BTreeHist2 BTreeMerge BTreeFast BTreeFast2 BTreeInsRange BTreeHist3.
+From C02 Require Import BTreeModel BTreeParams BTreeBase SplitSeg IndexTable BTreeSearch BTreeIter BTreeAdd BTreeRemove BTreeCtx BTreeRemove2 BTreeTrack BTreeRemove3 BTreeRange BTreeTop BTreeHist BTreeRemoveTop BTreeRangeTop BTreeHist2 BTreeMerge BTreeFast BTreeFast2 BTreeInsRange BTreeHist3 NodeOps NodeScript.
+From MomoCommon Require Import GenPrelude.
 Import ListNotations.
 Local Open Scope Z_scope.
 
@@ -408,8 +409,9 @@ Print Assumptions C02_insert_range_refines.
 
 (* lifted over ALL finite histories over the full single-container alphabet: Insert / hinted Add (right hint: Add at
    that position, wrong hint: Insert) / Insert(begin,end) / Remove(iterator at index h) / Remove(begin,end) /
-   Remove(key) for unique keys and for multi keys (the whole equal range) / ResetKey (when it keeps the order) / Clear,
-   from the empty container (Extract+Insert is the two-op sequence Remove(iterator); Insert): the state is WF, sorted
+   Remove(key) for unique keys and for multi keys (the whole equal range) / Remove(predicate) / ResetKey (when it keeps the order) /
+   Clear / copy construction or assignment -- i.e. EVERY public operation of the class that writes the node graph or mCount (frame
+   completeness; Swap / move / MergeFrom are in C02_history_two_containers_refines) -- from the empty container (Extract+Insert is the two-op sequence Remove(iterator); Insert): the state is WF, sorted
    (non-decreasing / strictly increasing), mCount is exact, and the sequence equals the list-level reference. *)
 Theorem C02_history_refines :
   forall (maxCap stepRaw blockCount : nat) (linear multi : bool), (1 <= maxCap <= 255)%nat ->
@@ -425,6 +427,112 @@ Theorem C02_spec_insert_sorted :
   forall (multi : bool) (l : list Z) (k : Z), sorted multi l -> sorted multi (fst (fst (spec_insert multi l k))).
 Proof. exact spec_insert_sorted. Qed.
 Print Assumptions C02_spec_insert_sorted.
+
+(* ===== growth round: the REAL node operations that write the count byte / the index table / (never) the memPoolIndex =====
+   Gen_NodeOpsI / Gen_NodeOpsC are the cxx2coq translations of Node::AcceptBackItem, Node::Remove, pvAcceptBackItem, pvRemove,
+   pvInitIndexes, GetCount, GetCapacity, IsLeaf for the indexed and the continuous instantiation (regenerated every run).  The item
+   and child-pointer moves inside them (std::copy, std::copy_backward, ShiftNothrow, the remover) are skipped calls; the hand model
+   (IndexTable.v) covers them and the node-level byte correspondence compares table, slots and children with the real Node. *)
+
+(* AcceptBackItem: Stuck exactly when an assert fails; otherwise count+1 (no uint8 wrap) and, besides the skipped shift, exactly one
+   table entry is written: indexes[index] = the old indexes[count].  mMemPoolIndex is not an output: it cannot change. *)
+Theorem C02_node_accept_count_plus_one_and_asserts :
+  forall leafPools maxCap step mpi cnt t index ch,
+    (0 <= cnt)%Z -> (Gen_NodeOpsI.GetCapacity leafPools maxCap step mpi cnt t <= 255)%Z ->
+    Gen_NodeOpsI.AcceptBackItem leafPools maxCap step mpi cnt t index ch =
+      if andb (cnt <? Gen_NodeOpsI.GetCapacity leafPools maxCap step mpi cnt t)%Z (index <=? cnt)%Z
+      then Ok (tt, (cnt + 1)%Z, upd t index (t cnt)) else Stuck.
+Proof. exact acceptI_spec. Qed.
+Print Assumptions C02_node_accept_count_plus_one_and_asserts.
+
+Theorem C02_node_remove_count_minus_one_and_asserts :
+  forall mpi cnt t index ch,
+    (0 <= index)%Z -> (cnt <= 255)%Z ->
+    Gen_NodeOpsI.Remove mpi cnt t index ch =
+      if (index <? cnt)%Z then Ok (tt, (cnt - 1)%Z, upd t (cnt - 1)%Z (t index)) else Stuck.
+Proof. exact removeI_spec. Qed.
+Print Assumptions C02_node_remove_count_minus_one_and_asserts.
+
+(* FRAME: capacity and leaf flag are functions of mMemPoolIndex alone, which no node operation returns as written *)
+Theorem C02_node_ops_frame_capacity_and_leaf_flag :
+  forall leafPools maxCap step mpi cnt t cnt' t',
+    Gen_NodeOpsI.GetCapacity leafPools maxCap step mpi cnt t = Gen_NodeOpsI.GetCapacity leafPools maxCap step mpi cnt' t' /\
+    Gen_NodeOpsI.IsLeaf leafPools mpi cnt t = Gen_NodeOpsI.IsLeaf leafPools mpi cnt' t'.
+Proof. exact capacity_frame. Qed.
+Print Assumptions C02_node_ops_frame_capacity_and_leaf_flag.
+
+(* same code: the continuous instantiation computes the same count and the same Stuck condition as the indexed one *)
+Theorem C02_node_layouts_same_code_accept :
+  forall leafPools maxCap step mpi cnt t index ch,
+    Gen_NodeOpsC.AcceptBackItem leafPools maxCap step mpi cnt index ch =
+    match Gen_NodeOpsI.AcceptBackItem leafPools maxCap step mpi cnt t index ch with
+    | Ok (_, c, _) => Ok (tt, c) | Stuck => Stuck | Fuel => Fuel | Exn => Exn end.
+Proof. exact same_code_accept. Qed.
+Print Assumptions C02_node_layouts_same_code_accept.
+
+Theorem C02_node_layouts_same_code_remove :
+  forall mpi cnt t index ch,
+    Gen_NodeOpsC.Remove mpi cnt index ch =
+    match Gen_NodeOpsI.Remove mpi cnt t index ch with
+    | Ok (_, c, _) => Ok (tt, c) | Stuck => Stuck | Fuel => Fuel | Exn => Exn end.
+Proof. exact same_code_remove. Qed.
+Print Assumptions C02_node_layouts_same_code_remove.
+
+(* the constructor's pvInitIndexes loop (real code) writes the identity on [0, maxCapacity) and nothing else *)
+Theorem C02_node_init_indexes_is_identity :
+  forall maxCap mpi cnt t, (0 <= maxCap <= 255)%Z ->
+    exists t', Gen_NodeOpsI.pvInitIndexes maxCap mpi cnt t = Ok (tt, t') /\
+      (forall j, (0 <= j < maxCap)%Z -> t' j = j) /\ (forall j, ~ (0 <= j < maxCap)%Z -> t' j = t j).
+Proof. exact init_indexes_identity. Qed.
+Print Assumptions C02_node_init_indexes_is_identity.
+
+(* the table entry the real code writes is the one the hand model of the table has there *)
+Theorem C02_generated_accept_table_step_agrees_with_hand_table :
+  forall (n : inode) index, (index <= icount n)%nat -> (icount n < length (idx n))%nat ->
+    tbl (idx (accept_back n index)) (Z.of_nat index) =
+    Gen_NodeOpsI.pvAcceptBackItem 0 0 (tbl (idx n)) (Z.of_nat index) (Z.of_nat (icount n)) (Z.of_nat index).
+Proof. exact accept_written_slot_agrees. Qed.
+Print Assumptions C02_generated_accept_table_step_agrees_with_hand_table.
+
+Theorem C02_generated_remove_table_step_agrees_with_hand_table :
+  forall (n : inode) index, (index < icount n)%nat -> (icount n <= length (idx n))%nat -> (icount n <= 255)%nat ->
+    tbl (idx (remove_idx n index)) (Z.of_nat (icount n) - 1)%Z =
+    Gen_NodeOpsI.pvRemove 0 0 (tbl (idx n)) (Z.of_nat index) (Z.of_nat (icount n)) (Z.of_nat (icount n) - 1)%Z.
+Proof. exact remove_written_slot_agrees. Qed.
+Print Assumptions C02_generated_remove_table_step_agrees_with_hand_table.
+
+(* indexed Remove: the table stays a permutation, the logical sequence loses exactly item `index`, NO raw slot is touched *)
+Theorem C02_indexed_node_remove_is_remove_at :
+  forall (n : inode) (index : nat), winv n -> (index < icount n)%nat ->
+    let n' := remove_idx n index in
+    winv n' /\ logical n' = remove_at index (logical n) /\ slots n' = slots n.
+Proof. exact remove_idx_refines. Qed.
+Print Assumptions C02_indexed_node_remove_is_remove_at.
+
+Theorem C02_indexed_node_initial_table :
+  forall cap s, length s = cap -> winv (init_inode cap s) /\ logical (init_inode cap s) = [].
+Proof. exact init_inode_winv. Qed.
+Print Assumptions C02_indexed_node_initial_table.
+
+(* ALL finite sequences of AcceptBackItem / Remove on an indexed node (asserts included: both sides get stuck together) *)
+Theorem C02_indexed_node_history_refines :
+  forall ops n, winv n ->
+    match fold_left (fun s o => match s with Some m => nstep_i m o | None => None end) ops (Some n),
+          fold_left (fun s o => match s with Some l => nstep_l l (length (idx n)) o | None => None end) ops (Some (logical n)) with
+    | Some n', Some l' => winv n' /\ logical n' = l' /\ length (idx n') = length (idx n)
+    | None, None => True
+    | _, _ => False
+    end.
+Proof. exact node_history_refines. Qed.
+Print Assumptions C02_indexed_node_history_refines.
+
+(* the executable node model used in the byte correspondence keeps "generated count byte = hand-model count" *)
+Theorem C02_node_script_count_is_generated_count :
+  forall maxCap stepRaw cont s index x nc s',
+    (0 <= ns_cnt s)%Z -> (ns_capacity maxCap stepRaw s <= 255)%Z -> ns_cnt s = Z.of_nat (icount (ns_node s)) ->
+    ns_accept maxCap stepRaw cont s index x nc = Some s' -> ns_cnt s' = Z.of_nat (icount (ns_node s')).
+Proof. exact ns_accept_count. Qed.
+Print Assumptions C02_node_script_count_is_generated_count.
 
 (* non-vacuity: a concrete reachable state (maxCapacity 2, ten insertions with duplicates) has height 2 *)
 Theorem C02_nonvacuous_example :
